@@ -73,16 +73,22 @@ var (
 	UTC   = time.UTC
 )
 
-func ParseDuration(s string) (Duration, error)               { return time.ParseDuration(s) }
-func FixedZone(name string, offset int) *Location            { return time.FixedZone(name, offset) }
-func LoadLocation(name string) (*Location, error)            { return time.LoadLocation(name) }
-func LoadLocationFromTZData(n string, d []byte) (*Location, error) { return time.LoadLocationFromTZData(n, d) }
-func Date(y int, m Month, d, h, mi, s, ns int, l *Location) Time { return time.Date(y, m, d, h, mi, s, ns, l) }
-func Parse(layout, value string) (Time, error)               { return time.Parse(layout, value) }
-func ParseInLocation(l, v string, loc *Location) (Time, error) { return time.ParseInLocation(l, v, loc) }
-func Unix(sec, nsec int64) Time                              { return time.Unix(sec, nsec) }
-func UnixMicro(usec int64) Time                              { return time.UnixMicro(usec) }
-func UnixMilli(msec int64) Time                              { return time.UnixMilli(msec) }
+func ParseDuration(s string) (Duration, error)    { return time.ParseDuration(s) }
+func FixedZone(name string, offset int) *Location { return time.FixedZone(name, offset) }
+func LoadLocation(name string) (*Location, error) { return time.LoadLocation(name) }
+func LoadLocationFromTZData(n string, d []byte) (*Location, error) {
+	return time.LoadLocationFromTZData(n, d)
+}
+func Date(y int, m Month, d, h, mi, s, ns int, l *Location) Time {
+	return time.Date(y, m, d, h, mi, s, ns, l)
+}
+func Parse(layout, value string) (Time, error) { return time.Parse(layout, value) }
+func ParseInLocation(l, v string, loc *Location) (Time, error) {
+	return time.ParseInLocation(l, v, loc)
+}
+func Unix(sec, nsec int64) Time { return time.Unix(sec, nsec) }
+func UnixMicro(usec int64) Time { return time.UnixMicro(usec) }
+func UnixMilli(msec int64) Time { return time.UnixMilli(msec) }
 
 func Now() Time {
 	if !sched.Virtual {
